@@ -116,6 +116,10 @@ class Report:
             bad.append((sig, path, v))
             lines.append("VIOLATION property=%s replay=%s signature=%s count=%d :: %s" % (
                 self.pid, path, sig, v["count"], str(v["detail"])[:300].replace("\n", "\\n")))
+        hit_sigs = {h["signature"] for h in hit}
+        for k in known:
+            if k["signature"] not in hit_sigs:
+                lines.append("KNOWN-FINDING: property=%s %s [%s] (listed; not exercised by this run)" % (self.pid, k.get("what", ""), k["signature"]))
         evals = sum(l["done"] for l in self.levels)
         distinct = sum(l["distinct"] for l in self.levels)
         cov = dict(
